@@ -334,11 +334,22 @@ def part_setup_restart(chk):
                 grid.writeH5Dataset(f, t_save)
                 return f
 
+            # variants: the resuming run is one of several on the machine (its communicator is a Split half of the world, one more
+            # process stands outside and takes part in nothing); the folder holds the parameter file but no checkpoint yet
+            outsider = rng.random() < 0.5
+            no_ckpt = rng.random() < 0.4
+
             def body():
                 # ... and a later run (possibly with a plot-only rank) resumes from it
-                comm = MPI.COMM_WORLD
+                world = MPI.COMM_WORLD
+                comm = world
+                if outsider:
+                    comm = world.Split(0 if world.Get_rank() < nranks else 1, world.Get_rank())
+                    if world.Get_rank() >= nranks:
+                        return ('outsider', t_exp, True, True)
                 f = fname[0]
-                g2, c2, t2 = setupFromFile(f, comm=comm, plotThread=plot, drawRank=draw, allocateSaveMemory=True)
+                kw = {'layout': lay} if no_ckpt else {}
+                g2, c2, t2 = setupFromFile(f, comm=comm, plotThread=plot, drawRank=draw, allocateSaveMemory=True, **kw)
                 lo = g2.getMin(draw)
                 hi = g2.getMax(draw)
                 g2.setLayout('v_parallel')
@@ -357,13 +368,19 @@ def part_setup_restart(chk):
                 chk.fail('C06:setup-disagreement', 'ranks disagree on the save folder: %s' % (refw.values(),), case_w)
                 continue
             fname[0] = refw.values()[0]
-            ref = run_policies(chk, nranks, body, case, 'restart set-up', policies=('reverse', 'random'))
+            t_exp = 0 if no_ckpt else t_save
+            if no_ckpt:
+                for x in os.listdir(fname[0]):
+                    if x.startswith('grid_'):
+                        os.remove(os.path.join(fname[0], x))
+            case.update(outsider_process=outsider, folder_without_checkpoint=no_ckpt)
+            ref = run_policies(chk, nranks + (1 if outsider else 0), body, case, 'restart set-up', policies=('reverse', 'random'))
             for d in os.listdir(work):
                 shutil.rmtree(os.path.join(work, d), ignore_errors=True)
             if ref is None:
                 continue
-            vals = ref.values()
-            if len({v[0] for v in vals}) != 1 or any(v[1] != t_save for v in vals):
+            vals = [v for v in ref.values() if v[0] != 'outsider']
+            if len({v[0] for v in vals}) != 1 or any(v[1] != t_exp for v in vals):
                 chk.fail('C06:setup-disagreement', 'ranks disagree on the save folder or the restart time: %s' % (vals,), case)
             chk.case(('setup', nranks, plot, draw, tuple(npts), lay, named), nontrivial=plot,
                      sample=dict(case, rank0_ops=[t[1] for t in ref.traces[0]][:14]) if it == 0 else None)
